@@ -27,6 +27,7 @@ CONSTANTS
     DepositStates,      \* subset of AllDepositStates
     DepositLimits,      \* maxNumberOfDeposits values (0 = unlimited)
     DepositFlags,       \* set of <<skipSwept, skipUnconfirmed>>
+    DepositFilters,     \* subset of {"this", "all"}: events of the wallet only / of all wallets
     \* ---- redemptions
     RedemptionHistories,\* set of event sequences, each event [key, block, wallet]; block 0 = older
                         \* than the lookback window of the event filter
@@ -61,7 +62,7 @@ DepositHistories == UNION { [1..n -> DepositEvents] : n \in 0..MaxDepositEvents 
 
 DepositScenarios ==
     [kind : {"deposits"}, events : DepositHistories, limit : DepositLimits, flags : DepositFlags,
-     filter : {"this", "all"}]
+     filter : DepositFilters]
 
 \* redemption scenario: a history plus the Bridge state of every redemption key
 RedemptionKeysOf(h) == { h[i].key : i \in 1..Len(h) }
